@@ -120,6 +120,20 @@ Proof.
   unfold verify_ref in H. rewrite Hs in H. exact H.
 Qed.
 
+(* witness inputs: the session never enters the pay-to-script-hash phase, whatever the witness script looks like, and is ONE evaluation of
+   the script the configuration theorems prescribe (P2WSH witness script / implied P2PKH script / key-path check) on the prescribed stack *)
+Theorem C03_witness_session_never_p2sh : forall c script stack succ ed t, (c_sigver c =? SV_BASE) = false ->
+  i_p2sh (setup_env c script stack succ ed t) = false.
+Proof. exact witness_session_not_p2sh. Qed.
+
+Theorem C03_witness_script_session_is_one_evaluation : forall low_s tap_tweak_ok sha256 c script stack ed f,
+  (c_sigver c =? SV_BASE) = false -> script <> [] -> script_too_big (c_sigver c) script = false ->
+  enough low_s c f (setup_env c script stack [] ed None) ->
+  ended (Session.dbg_continue low_s tap_tweak_ok sha256 f c (setup_env c script stack [] ed None))
+        (match eval_ref low_s c (i_e (setup_env c script stack [] ed None)) script with
+         | (e1, SOk) => finish e1 | (e1, st) => failed_verdict e1 st end).
+Proof. exact witness_script_session. Qed.
+
 (* non-vacuity: the start state of every session built by setup_environment for a scriptSig that is not itself P2SH-shaped meets the premises *)
 Example C03_session_premises : forall c script stack succ ed, script <> [] ->
   i_p2sh (setup_env c script stack succ ed None) = false ->
@@ -145,6 +159,8 @@ Qed.
 Print Assumptions C03_selection_sound.
 Print Assumptions C03_legacy_session_is_script_validation.
 Print Assumptions C03_single_script_session_is_one_evaluation.
+Print Assumptions C03_witness_session_never_p2sh.
+Print Assumptions C03_witness_script_session_is_one_evaluation.
 Print Assumptions C03_control_block_size_bounds.
 Print Assumptions C03_wrong_selection_refused.
 Print Assumptions C03_selection_out_of_range_refused.
